@@ -2,6 +2,7 @@ import FimVerif.Proofs.Lemmas.C06Nbr
 import FimVerif.Proofs.Lemmas.C06Sp
 import FimVerif.Proofs.Lemmas.C06Wf
 import FimVerif.Proofs.Lemmas.C06Hops
+import FimVerif.Proofs.Lemmas.C06Cycle
 /-!
 # C06 — neighbour and path queries return exactly what their contract describes
 
@@ -9,11 +10,13 @@ Property theorems only (helper lemmas: `Proofs/Lemmas/C06*.lean`; model: `Model/
 All statements quantify over every typed graph view `g`; `wf g` (node ids distinct, edge ends are nodes, one edge per
 unordered pair) is decidable and holds for every view built through `add_node`/`add_link` (`wf_build`).
 
-* neighbours: `first_neighbor_exact`, `first_neighbor_total`, `first_neighbor_nodup`, `get_parent_unique`
+* neighbours: `relink_replaces_relation`, `first_neighbor_exact`, `first_neighbor_total`, `first_neighbor_nodup`, `get_parent_unique`
+* gated helpers: `helper_constants`, `link_cps_exact`, `child_cps_exact`, `node_cps_spec`, `helpers_outside_domain`
 * two hops: `two_hop_exact` (for the repaired idiom), `two_hop_counterexample` + `two_hop_partial` (code as written —
-  known finding), `two_hop_total`, `two_hop_nodup`, `second_components_spec`
+  known finding), `two_hop_as_written_exact`, `two_hop_selfloop_counterexample`, `peer_counterexample`,
+  `nodecps_counterexample`, `two_hop_total`, `two_hop_nodup`, `second_components_spec`
 * shortest path: `shortest_path_sound`, `shortest_path_empty_iff_unreachable`, `shortest_path_minimal`, `shortest_path_total`
-* path with hops: `hops_sound`, `hops_minimal`, `hops_empty_iff_none`, `hops_total`,
+* path with hops: `hops_sound`, `hops_minimal`, `hops_empty_iff_none`, `hops_total`, `hops_cutoff_irrelevant`, `hops_full_statement`, `hops_contract_graph_theoretic`, `hops_answer_acyclic`,
   `hops_list_semantics` (repeats / order of the hop list are irrelevant), `hops_foreign_hop_empty`
 -/
 namespace FimVerif.C06
@@ -175,9 +178,177 @@ example : ∀ m k r, Edge (build [.node "a" "A", .node "b" "B", .node "c" "A", .
   simp [Edge, build, apply, addNode, addLink, verts, empty, joins] at h1 h2
   rcases h2 with (h | h) | (h | h) <;> exact h.2.2
 
+/-- what the code *as written* computes: the relation of the second edge is not looked at, except that a pair `(m, m)`
+    over a self-loop is returned only when *every* edge at `m` has relation `r2` -/
+def TwoHopAsWritten (g : TGraph) (n r1 c1 r2 c2 : String) (p : String × String) : Prop :=
+  Edge g n p.1 r1 ∧ classOf g p.1 = some c1 ∧ (∃ r, Edge g p.1 p.2 r) ∧
+  (p.2 = p.1 → ∀ w r, Edge g p.1 w r → r = r2) ∧ classOf g p.2 = some c2 ∧ p.2 ≠ n
+
+/-- **two_hop_as_written_exact.**  The exact answer of the code as written (second drop list receives the first-hop
+    node).  `two_hop_partial` (1)-(3) are corollaries; the difference to `TwoHopSpec` is exactly the two known findings. -/
+theorem two_hop_as_written_exact (hbug : QueryIdioms.hop2DropsNeighbour = false)
+    {g : TGraph} (hw : wf g = true) {n r1 c1 r2 c2 : String} {l : List (String × String)}
+    (h : getFirstAndSecondNeighbor g n r1 c1 r2 c2 = .ok l) (p : String × String) :
+    p ∈ l ↔ TwoHopAsWritten g n r1 c1 r2 c2 p := by
+  obtain ⟨_, rfl⟩ := prologue1 h
+  have hu := (wf_iff.1 hw).2.2
+  have h1 : QueryIdioms.hop1DropsNeighbour = true := by decide
+  rw [twoHop, h1, hbug, mem_twoHopWith, mem_viaFilter_true hu, mem_viaFilter_false, mem_nbrs, mem_nbrs, TwoHopAsWritten]
+  constructor
+  · rintro ⟨⟨_, a⟩, b, ⟨c, d⟩, e, f⟩
+    refine ⟨a, b, c, fun heq w r hwr => ?_, e, f⟩
+    have := d heq w (mem_nbrs.2 ⟨r, hwr⟩)
+    exact edge_rel_unique hu hwr ((relOf_iff hu).1 this)
+  · rintro ⟨a, b, c, d, e, f⟩
+    refine ⟨⟨⟨_, a⟩, a⟩, b, ⟨c, fun heq w hw => ?_⟩, e, f⟩
+    obtain ⟨r, hr⟩ := mem_nbrs.1 hw
+    have := d heq w r hr
+    subst this
+    exact relOf_of_edge hu hr
+
+/-- the graph of the second known finding: b -r- a, a -s- a (self-loop), a -r- c, all of class A -/
+def loopGraph : TGraph := build [.node "a" "A", .node "b" "A", .node "c" "A", .link "b" "r" "a", .link "a" "s" "a", .link "a" "r" "c"]
+
+/-- **two_hop_selfloop_counterexample.**  Second known finding: a pair of the contract is *missing* — the first-hop node
+    `a` has a self-loop of the requested second relation and another edge of a different relation, so `a` is put on its own
+    drop list (replayed on the implementation by corpus case `two_hop_self_loop_lost`). -/
+theorem two_hop_selfloop_counterexample (hbug : QueryIdioms.hop2DropsNeighbour = false) :
+    wf loopGraph = true ∧
+    ∃ l, getFirstAndSecondNeighbor loopGraph "b" "r" "A" "s" "A" = .ok l ∧
+      TwoHopSpec loopGraph "b" "r" "A" "s" "A" ("a", "a") ∧ ("a", "a") ∉ l := by
+  have h1 : QueryIdioms.hop1DropsNeighbour = true := by decide
+  refine ⟨by decide, _, two_hop_total (g := loopGraph) (n := "b") (by decide) .., ?_, ?_⟩
+  · simp [TwoHopSpec, Edge, classOf, loopGraph, build, apply, addNode, addLink, verts, empty, joins]
+  · simp only [twoHop, hbug, h1]
+    decide
+
+/-- ConnectionPoint n1 -connects- Link n2 -has- ConnectionPoint n3 (corpus case `peer_wrong_relation`) -/
+def peerGraph : TGraph := build [.node "n1" "ConnectionPoint", .node "n2" "Link", .node "n3" "ConnectionPoint",
+  .link "n1" "connects" "n2", .link "n2" "has" "n3"]
+
+/-- **peer_counterexample.**  `find_peer_connection_points` inherits the inert second relation filter: n3 is reported as a
+    peer of n1 although the Link does not *connect* it. -/
+theorem peer_counterexample (hbug : QueryIdioms.hop2DropsNeighbour = false) :
+    wf peerGraph = true ∧
+    ∃ ks, secondComponents peerGraph "n1" "connects" "Link" "connects" "ConnectionPoint" = .ok ks ∧ "n3" ∈ ks ∧
+      ¬ ∃ m, TwoHopSpec peerGraph "n1" "connects" "Link" "connects" "ConnectionPoint" (m, "n3") := by
+  have h1 : QueryIdioms.hop1DropsNeighbour = true := by decide
+  refine ⟨by decide, twoHop peerGraph "n1" "connects" "Link" "connects" "ConnectionPoint" |>.map (·.2), ?_, ?_, ?_⟩
+  · simp only [secondComponents, two_hop_total (g := peerGraph) (n := "n1") (by decide), bind, Except.bind, pure, Except.pure]
+  · simp only [twoHop, hbug, h1]
+    decide
+  · simp [TwoHopSpec, Edge, peerGraph, build, apply, addNode, addLink, verts, empty, joins]
+
+/-- Component n1 -has- NetworkService n2 -has- ConnectionPoint n3 (corpus case `nodecps_wrong_relation`) -/
+def nodecpsGraph : TGraph := build [.node "n1" "Component", .node "n2" "NetworkService", .node "n3" "ConnectionPoint",
+  .link "n1" "has" "n2", .link "n2" "has" "n3"]
+
+/-- **nodecps_counterexample.**  `get_all_node_or_component_connection_points` inherits it as well. -/
+theorem nodecps_counterexample (hbug : QueryIdioms.hop2DropsNeighbour = false) :
+    wf nodecpsGraph = true ∧
+    ∃ ks, secondComponents nodecpsGraph "n1" "has" "NetworkService" "connects" "ConnectionPoint" = .ok ks ∧ "n3" ∈ ks ∧
+      ¬ ∃ m, TwoHopSpec nodecpsGraph "n1" "has" "NetworkService" "connects" "ConnectionPoint" (m, "n3") := by
+  have h1 : QueryIdioms.hop1DropsNeighbour = true := by decide
+  refine ⟨by decide, twoHop nodecpsGraph "n1" "has" "NetworkService" "connects" "ConnectionPoint" |>.map (·.2), ?_, ?_, ?_⟩
+  · simp only [secondComponents, two_hop_total (g := nodecpsGraph) (n := "n1") (by decide), bind, Except.bind, pure, Except.pure]
+  · simp only [twoHop, hbug, h1]
+    decide
+  · simp [TwoHopSpec, Edge, nodecpsGraph, build, apply, addNode, addLink, verts, empty, joins]
+
 /-- **wf_build.**  The hypothesis `wf g` of the theorems above holds for every view obtained through
     `add_node` / `add_link`, which is how the harness (and the library) builds graphs. -/
 theorem wf_build (ops : List Op) : wf (build ops) = true := Query.wf_build ops
+
+/-! ### derived helpers with a class gate (gate classes and query constants regenerated from the source) -/
+
+/-- **helper_constants.**  What the translator read from the four derived helpers of `ABCPropertyGraph`: the admitted
+    classes of each gate and the relation / class constants of the underlying query. -/
+theorem helper_constants :
+    QueryIdioms.linkCpsGate = ["Link", "NetworkService"] ∧ QueryIdioms.linkCpsQuery = ["connects", "ConnectionPoint"] ∧
+    QueryIdioms.childCpsGate = ["ConnectionPoint"] ∧ QueryIdioms.childCpsQuery = ["connects", "ConnectionPoint"] ∧
+    QueryIdioms.nodeCpsGate = ["NetworkNode", "Component", "CompositeNode"] ∧
+    QueryIdioms.nodeCpsQuery = ["has", "NetworkService", "connects", "ConnectionPoint"] ∧
+    QueryIdioms.peerQuery = ["connects", "Link", "connects", "ConnectionPoint"] := by decide
+
+/-- **link_cps_exact.**  `get_all_ns_or_link_connection_points(n)` answers only for a Link or a NetworkService (whole
+    class names: a CompositeLink is not a Link), and then with exactly the ConnectionPoints joined to `n` by `connects`. -/
+theorem link_cps_exact {g : TGraph} (hw : wf g = true) {n : String} {l : List String} (h : linkCps g n = .ok l) :
+    (classOf g n = some "Link" ∨ classOf g n = some "NetworkService") ∧
+    ∀ m, m ∈ l ↔ Edge g n m "connects" ∧ classOf g m = some "ConnectionPoint" := by
+  obtain ⟨⟨c, hc, hm⟩, hq⟩ := gated_ok_iff.1 h
+  have hk := helper_constants
+  rw [hk.1] at hm
+  rw [hk.2.1] at hq
+  refine ⟨?_, first_neighbor_exact hw hq⟩
+  simp at hm
+  rcases hm with rfl | rfl
+  · exact Or.inl hc
+  · exact Or.inr hc
+
+/-- **child_cps_exact.**  `get_all_child_connection_points` -/
+theorem child_cps_exact {g : TGraph} (hw : wf g = true) {n : String} {l : List String} (h : childCps g n = .ok l) :
+    classOf g n = some "ConnectionPoint" ∧
+    ∀ m, m ∈ l ↔ Edge g n m "connects" ∧ classOf g m = some "ConnectionPoint" := by
+  obtain ⟨⟨c, hc, hm⟩, hq⟩ := gated_ok_iff.1 h
+  have hk := helper_constants
+  rw [hk.2.2.1] at hm
+  rw [hk.2.2.2.1] at hq
+  refine ⟨?_, first_neighbor_exact hw hq⟩
+  simp at hm
+  subst hm
+  exact hc
+
+/-- **node_cps_spec.**  `get_all_node_or_component_connection_points` answers only for a NetworkNode, Component or
+    CompositeNode, with the second components of the two-hop query has/NetworkService, connects/ConnectionPoint. -/
+theorem node_cps_spec {g : TGraph} {n : String} {ks : List String} (h : nodeCps g n = .ok ks) :
+    (classOf g n = some "NetworkNode" ∨ classOf g n = some "Component" ∨ classOf g n = some "CompositeNode") ∧
+    secondComponents g n "has" "NetworkService" "connects" "ConnectionPoint" = .ok ks := by
+  obtain ⟨⟨c, hc, hm⟩, hq⟩ := gated_ok_iff.1 h
+  have hk := helper_constants
+  rw [hk.2.2.2.2.1] at hm
+  rw [hk.2.2.2.2.2.1] at hq
+  refine ⟨?_, hq⟩
+  simp at hm
+  rcases hm with rfl | rfl | rfl
+  · exact Or.inl hc
+  · exact Or.inr (Or.inl hc)
+  · exact Or.inr (Or.inr hc)
+
+/-- **helpers_outside_domain.**  Asked about a node of any other class — `CompositeLink` for the Link helper included —
+    or about an unknown node, each gated helper raises the query exception. -/
+theorem helpers_outside_domain {g : TGraph} {n : String} :
+    ((¬ ∃ c, classOf g n = some c ∧ (c = "Link" ∨ c = "NetworkService")) → linkCps g n = .error .query) ∧
+    ((¬ ∃ c, classOf g n = some c ∧ c = "ConnectionPoint") → childCps g n = .error .query) ∧
+    ((¬ ∃ c, classOf g n = some c ∧ (c = "NetworkNode" ∨ c = "Component" ∨ c = "CompositeNode")) → nodeCps g n = .error .query) := by
+  have hk := helper_constants
+  refine ⟨fun h => gated_outside ?_, fun h => gated_outside ?_, fun h => gated_outside ?_⟩
+  · rw [hk.1]; simpa using h
+  · rw [hk.2.2.1]; simpa using h
+  · rw [hk.2.2.2.2.1]; simpa using h
+
+/-- non-vacuity: on cp -connects- CompositeLink cl -connects- cp2 the Link helper raises for `cl`, and answers for a Link -/
+example : (linkCps (build [.node "cp" "ConnectionPoint", .node "cl" "CompositeLink", .node "l" "Link", .link "cp" "connects" "cl",
+      .link "cp" "connects" "l"]) "cl").toOption = none ∧
+    (linkCps (build [.node "cp" "ConnectionPoint", .node "cl" "CompositeLink", .node "l" "Link", .link "cp" "connects" "cl",
+      .link "cp" "connects" "l"]) "l").toOption = some ["cp"] := by decide
+
+/-- **relink_replaces_relation.**  A NetworkX `Graph` keeps one edge per pair of nodes: a second `add_link` between the same
+    two nodes (either orientation, any relation) *replaces* the relation.  Afterwards every first-neighbour query from `a`
+    sees `b` under the new relation only — the earlier relation is gone for all queries. -/
+theorem relink_replaces_relation {g : TGraph} (hw : wf g = true) {a b : String} (ha : a ∈ verts g) (hb : b ∈ verts g)
+    (s r c : String) {l : List String} (h : getFirstNeighbor (addLink g a s b) a r c = .ok l) :
+    b ∈ l ↔ r = s ∧ classOf g b = some c := by
+  have hw' : wf (addLink g a s b) = true := wf_addLink hw a s b
+  have hu := (wf_iff.1 hw').2.2
+  rw [first_neighbor_exact hw' h b, classOf_addLink, ← relOf_iff hu, relOf_addLink ha hb]
+  constructor
+  · rintro ⟨h1, h2⟩; exact ⟨(Option.some.inj h1).symm, h2⟩
+  · rintro ⟨rfl, h2⟩; exact ⟨rfl, h2⟩
+
+/-- instance: a -has- b, then a -connects- b: the `has` query no longer returns b -/
+example : (getFirstNeighbor (build [.node "a" "A", .node "b" "B", .link "a" "has" "b", .link "b" "connects" "a"]) "a" "has" "B").toOption = some [] ∧
+    (getFirstNeighbor (build [.node "a" "A", .node "b" "B", .link "a" "has" "b", .link "b" "connects" "a"]) "a" "connects" "B").toOption = some ["b"] := by
+  decide
 
 /-- **class_lookup_is_membership.**  `classOf g m = some c` in the statements above says that `(m, c)` is a node of the view. -/
 theorem class_lookup_is_membership {g : TGraph} (hw : wf g = true) (m c : String) :
@@ -312,6 +483,60 @@ example (g : TGraph) (a z : String) (k : Nat) (p : List String) :
     HopPath g a z [] k p ↔ IsPath g none a z p ∧ LoopFree g p ∧ p.length ≤ k + 1 := by
   simp [HopPath]
 
+/-- the contract as the property states it — no cut-off: a loop-free path from `a` to `z` containing every requested hop -/
+def HopPathU (g : TGraph) (a z : String) (hops : List String) (p : List String) : Prop :=
+  IsPath g none a z p ∧ LoopFree g p ∧ (∀ h ∈ hops, h ∈ p)
+
+/-- **hops_cutoff_irrelevant.**  A loop-free path visits every node at most once, so a cut-off of at least
+    `#nodes - 1` edges (the default 100 on any graph of up to 101 nodes) excludes nothing. -/
+theorem hops_cutoff_irrelevant {g : TGraph} (hw : wf g = true) {a z : String} (ha : a ∈ verts g) (hops : List String)
+    {cutoff : Nat} (hc : (verts g).length ≤ cutoff + 1) (q : List String) :
+    HopPath g a z hops cutoff q ↔ HopPathU g a z hops q := by
+  constructor
+  · rintro ⟨h1, h2, h3, _⟩; exact ⟨h1, h2, h3⟩
+  · rintro ⟨h1, h2, h3⟩
+    refine ⟨h1, h2, h3, ?_⟩
+    have hin := chain_nodes_in_verts (wf_iff.1 hw).2.1 q a h1.1 ha h1.2.2
+    exact Nat.le_trans (nodup_length_le_of_subset q (verts g) h2.1 hin) hc
+
+/-- **hops_full_statement.**  The property's sentence in one statement, for a cut-off that does not bind: the answer is
+    a loop-free path from `a` to `z` containing all requested hops that is shortest among *all* such paths, or it is the
+    empty list and no such path exists. -/
+theorem hops_full_statement {g : TGraph} (hw : wf g = true) {a z : String} {hops : List String} {cutoff : Nat}
+    (hc : (verts g).length ≤ cutoff + 1) {p : List String}
+    (h : getNodesOnPathWithHops g a z hops cutoff = .ok p) :
+    (p = [] ∧ ¬ ∃ q, HopPathU g a z hops q) ∨
+    (HopPathU g a z hops p ∧ ∀ q, HopPathU g a z hops q → p.length ≤ q.length) := by
+  have ha := (hops_ok h).1
+  have heq := hops_cutoff_irrelevant hw ha hops hc (z := z)
+  by_cases hp : p = []
+  · left
+    refine ⟨hp, ?_⟩
+    rintro ⟨q, hq⟩
+    exact ((hops_empty_iff_none h).1 hp) ⟨q, (heq q).2 hq⟩
+  · right
+    exact ⟨(heq p).1 (hops_sound h hp), fun q hq => (hops_minimal h ((heq q).2 hq)).2⟩
+
+/-- **hops_contract_graph_theoretic.**  `LoopFree` in the statements of this section is the graph-theoretic notion: a
+    path satisfies the contract iff it is a simple path (no node twice) from `a` to `z` whose induced subgraph contains no
+    cycle (`IsCycle`: a self-loop, or at least three distinct nodes each joined to the next and the last to the first), and
+    every requested hop lies on it.  (`Proofs/Lemmas/C06Cycle.lean`: chord-freeness of a simple path = acyclicity.) -/
+theorem hops_contract_graph_theoretic {g : TGraph} {a z : String} {hops : List String} (q : List String) :
+    HopPathU g a z hops q ↔
+      IsPath g none a z q ∧ q.Nodup ∧ (¬ ∃ c, (∀ x ∈ c, x ∈ q) ∧ IsCycle g c) ∧ ∀ h ∈ hops, h ∈ q := by
+  constructor
+  · rintro ⟨h1, h2, h3⟩
+    exact ⟨h1, h2.1, (loopFree_iff_acyclic h2.1 h1.2.2).1 h2, h3⟩
+  · rintro ⟨h1, h2, h3, h4⟩
+    exact ⟨h1, (loopFree_iff_acyclic h2 h1.2.2).2 h3, h4⟩
+
+/-- a non-empty answer is a simple path and no cycle runs through its nodes -/
+theorem hops_answer_acyclic {g : TGraph} {a z : String} {hops : List String} {cutoff : Nat} {p : List String}
+    (h : getNodesOnPathWithHops g a z hops cutoff = .ok p) (hne : p ≠ []) :
+    p.Nodup ∧ ¬ ∃ c, (∀ x ∈ c, x ∈ p) ∧ IsCycle g c := by
+  obtain ⟨h1, h2, _, _⟩ := hops_sound h hne
+  exact ⟨h2.1, (loopFree_iff_acyclic h2.1 h1.2.2).1 h2⟩
+
 /-- the query answers for end nodes of the graph -/
 theorem hops_total {g : TGraph} {a z : String} (ha : a ∈ verts g) (hz : z ∈ verts g) (hops : List String) (cutoff : Nat) :
     ∃ p, getNodesOnPathWithHops g a z hops cutoff = .ok p := by
@@ -323,6 +548,14 @@ theorem hops_total {g : TGraph} {a z : String} (ha : a ∈ verts g) (hz : z ∈ 
     path through b is rejected (its induced subgraph has the cycle a-b-c) and nothing is returned -/
 def hopGraph : TGraph := build [.node "a" "A", .node "b" "A", .node "c" "A", .node "d" "A",
   .link "a" "r" "b", .link "b" "r" "c", .link "c" "r" "d", .link "d" "r" "a", .link "a" "s" "c"]
+
+/-- non-vacuity of the hypotheses of `hops_full_statement` (default cut-off 100) -/
+example : wf hopGraph = true ∧ (verts hopGraph).length ≤ 100 + 1 := by decide
+
+/-- the cycle that makes the path a - b - c of `hopGraph` not loop-free: a - b - c - a (the chord a -s- c closes it) -/
+example : IsCycle hopGraph ["a", "b", "c"] := by
+  refine Or.inr ⟨by decide, by decide, ⟨⟨"r", by unfold Edge; decide, by simp⟩, ⟨"r", by unfold Edge; decide, by simp⟩, trivial⟩,
+    "a", "c", rfl, rfl, ⟨"s", by unfold Edge; decide, by simp⟩⟩
 
 example : pathWithHops hopGraph "a" "c" [] 100 = ["a", "c"] ∧ pathWithHops hopGraph "a" "c" ["b"] 100 = [] ∧
     pathWithHops hopGraph "b" "d" ["a"] 100 = ["b", "a", "d"] ∧ pathWithHops hopGraph "b" "d" ["a"] 1 = [] := by
